@@ -189,6 +189,7 @@ class Result:
     known: list[tuple[Ob, dict]] = field(default_factory=list)
     rules_run: dict = field(default_factory=dict)
     notes: list[str] = field(default_factory=list)
+    errors: list[str] = field(default_factory=list)
     wall_s: float = 0.0
 
 
@@ -209,15 +210,28 @@ def run_property(repo: Repo, prop: str, tier: str, only_rules=None) -> Result:
         raise AnalysisError(f"no rules registered for {prop}")
     for s in specs:
         ctx = Ctx(repo, s, tier)
-        s.func(ctx)
+        # A rule whose anchors vanished does not stop the other rules of the property: a
+        # violation another rule can still see is reported (exit 1) together with the
+        # ANALYSIS-ERROR lines; with no violation the property's run is analysis-broken
+        # (exit 2).  What the failing rule judged before it lost its footing stands.
+        try:
+            s.func(ctx)
+            if len(ctx.obs) < s.floor and all(o.ok for o in ctx.obs):
+                # (a rule that already reports a violation may stop early; that is a
+                # verdict, not a vanished anchor)
+                raise AnalysisError(
+                    f"only {len(ctx.obs)} instance(s) found, floor is {s.floor}: "
+                    "the rule's anchors no longer match the code"
+                )
+        except AnalysisError as e:
+            msg = str(e)
+            res.errors.append(msg if msg.startswith(f"[{s.rid}]") else f"[{s.rid}] {msg}")
+        except Exception as e:  # noqa: BLE001  (a crash inside a rule is an analysis error of that rule)
+            import traceback
+
+            tb = traceback.extract_tb(e.__traceback__)[-1]
+            res.errors.append(f"[{s.rid}] internal: {type(e).__name__}: {e} ({os.path.basename(tb.filename)}:{tb.lineno})")
         mine = [o for o in ctx.obs if prop in o.props]
-        if len(ctx.obs) < s.floor and all(o.ok for o in ctx.obs):
-            # (a rule that already reports a violation may stop early; that is a verdict,
-            # not a vanished anchor)
-            raise AnalysisError(
-                f"[{s.rid}] only {len(ctx.obs)} instance(s) found, floor is {s.floor}: "
-                "the rule's anchors no longer match the code"
-            )
         viol = known_n = exc_n = 0
         for o in mine:
             if o.exception:
@@ -242,6 +256,8 @@ def run_property(repo: Repo, prop: str, tier: str, only_rules=None) -> Result:
             "what": s.doc.split("\n")[0],
         }
     res.wall_s = time.time() - t0
+    if res.errors and not res.violations:
+        raise AnalysisError("; ".join(res.errors))
     return res
 
 
